@@ -1474,8 +1474,40 @@ fn directed(ctx: &mut Ctx) {
     }
 }
 
+/// the parallel (rayon) operations only split the work above `RAYON_MIN_LEN` = 100 000 backend
+/// words: vectors whose elements span more words than that, with a word count that is not a
+/// multiple of the threshold (all elements nonzero, `par_reset`, then compared with a fresh zero vector)
+fn large_par_cases(ctx: &mut Ctx) {
+    for (wt, w, bw, len) in [("usize", 64usize, 64usize, 150_001usize), ("usize", 64, 33, 250_001), ("u8", 8, 8, 230_017), ("u32", 32, 17, 400_003)] {
+        ctx.case();
+        let mut s = fresh(wt);
+        let v = omask(bw) / 3 | 1;
+        for o in [
+            format!("wordtype {} {}", wt, w),
+            format!("new {} {}", bw, len),
+            "clone".to_string(),
+            "clear".to_string(),
+            format!("resize {} {}", len, v),
+            format!("get {}", len - 1),
+            "par_reset".to_string(),
+            "eq".to_string(),
+            format!("get {}", len - 1),
+            format!("get {}", len / 2),
+            "get 0".to_string(),
+            format!("resize {} {}", len + 3, v),
+            "apar_reset".to_string(),
+            format!("get {}", len + 2),
+            format!("get {}", len - 1),
+        ] {
+            exec(ctx, &mut s, &o);
+        }
+        ctx.shape(format!("large-par:{}:{}", wt, bw));
+    }
+}
+
 pub fn run(ctx: &mut Ctx) {
     directed(ctx);
+    large_par_cases(ctx);
     let n = if ctx.tier == Tier::Quick { 3000 } else { 60000 };
     for _ in 0..n {
         random_case(ctx);
